@@ -11,7 +11,7 @@ A == <<97>>
 T == <<116>>
 S(str) == str
 Vals == { <<>>, <<120>>, <<120,121>>, <<120,32,121>>, <<120,45,121>>, <<88>>, <<32,120>>, <<121,32,120>>,
-          <<120,10,121>>, <<121,120>>, <<120,9,121>>, <<120,45>> }
+          <<120,10,121>>, <<121,120>>, <<120,9,121>>, <<120,45>>, <<120,160,121>>, <<120,8195>> }      \* incl. NBSP / EM SPACE: not CSS whitespace
 Operands == { <<>>, <<120>>, <<121>>, <<120,32,121>>, <<88>>, <<120,45>>, <<120,121>> }
 AttrNames == {T, TypeAttr, IdAttr, ClassAttr}
 Ops == {"eq", "ne", "inc", "dash", "pre", "suf", "sub"}
